@@ -409,9 +409,13 @@ func (n *ReconcileNode) syncWithAPI(ctx context.Context, node *networkv1beta1.No
 			if node.Status.NetworkInterfaces[id].NetworkInterfaceType == networkv1beta1.ENITypeSecondary {
 				var remote []*aliyunClient.NetworkInterface
 
+				// look the eni up by id alone: with the instance filter an eni that is not attached, the case
+				// handled below, is never returned, the record was dropped and the eni leaked
 				opts = &aliyunClient.DescribeNetworkInterfaceOptions{
-					InstanceID:          &node.Spec.NodeMetadata.InstanceID,
 					NetworkInterfaceIDs: &[]string{id},
+				}
+				if isEFLO(ctx) {
+					opts.InstanceID = &node.Spec.NodeMetadata.InstanceID
 				}
 				if node.Spec.ENISpec.TagFilter != nil {
 					opts.Tags = &node.Spec.ENISpec.TagFilter
